@@ -249,6 +249,7 @@ type Obligation struct {
 	Abstract bool     // depends on abstracted instructions
 	kfUnrestricted bool // the unrestricted form of an obligation with an open known finding (expected to fail)
 	kfName   string
+	Auto     bool // helper obligation of an uncontracted loop: never named in the ledger, always checked
 }
 
 type Log struct {
